@@ -9,6 +9,11 @@
     [mu + a*sigma, mu + b*sigma];
   * re-running the probe with `TruncNormal.sample` repaired in memory (bounds standardised, nothing else
     changed) makes both the call comparison and the support test pass.
+`tail_boundary(prop, record)` recognises finding F45 (simulated tail probability P(X >= c) loses the boundary
+X = c): a TAIL_BOUND_UPPER goal whose expression equals the bound exactly on the run, printed 0.0 where the
+indicator is 1.0, every other goal of the same run right, and the same run with
+`SimulationResult._goal_to_float` deciding the relational numerically (in-memory repair) prints the expected value.
+
 Any other sampler failure (another family, wrong loc/scale, extra arguments, samples outside even the
 mis-parameterised support, a failure that survives the repair) is not excused.
 """
@@ -68,7 +73,9 @@ def truncnormal_raw_bounds(prop, record):
         return None
     r = res["result"]
     calls = r["calls"][0]
-    if len(calls) != 1 or calls[0]["fn"] != "truncnorm" or [Fr(x) for x in calls[0]["shape"]] != std \
+    # (the repaired bounds are doubles: compare with the nearest double of the exact quotient)
+    if len(calls) != 1 or calls[0]["fn"] != "truncnorm" or \
+            [float(Fr(x)) for x in calls[0]["shape"]] != [float(x) for x in std] \
             or Fr(calls[0]["loc"]) != mu or Fr(calls[0]["scale"]) != sigma or r["n_outside"] != 0:
         return None
     ps = ", ".join(record["params"])
@@ -77,3 +84,31 @@ def truncnormal_raw_bounds(prop, record):
                 f"standardised bounds ({std[0]}, {std[1]}); repaired sampler agrees")
     return (f"TruncNormal({ps}).sample leaves the declared support [{a}, {b}] (samples in [{mu + a * sigma}, "
             f"{mu + b * sigma}]); repaired sampler stays inside")
+
+
+def tail_boundary(prop, record):
+    if prop != "C12" or record.get("kind") != "cli-goal":
+        return None
+    if record.get("goal_kind") != "tail-upper" or not record.get("boundary"):
+        return None
+    try:
+        if float(record["printed"]) != 0.0 or float(record["expected"]) != 1.0:
+            return None
+    except (ValueError, TypeError):
+        return None
+    res = run_tasks([{"fn": "harness.tasks.c12:cli_simulation",
+                      "args": {"text": record["text"], "goal_texts": record["all_goals"], "n": record["n"],
+                               "samples": record["samples"], "repair": True}}], timeout=300, nworkers=1)[0]
+    if res.get("status") != "ok":
+        return None
+    lines = res["result"]["lines"]
+    if len(lines) != len(record["all_expected"]):
+        return None
+    try:
+        if any(float(v) != e for (_, v), e in zip(lines, record["all_expected"])):
+            return None
+    except ValueError:
+        return None
+    return ("simulated tail probability loses the boundary: symengine decides `c <= x` with an Integer/Rational c and a "
+            "RealDouble state as false when x == c (goal of the form P(X >= c) <= ?, X == c on the run, printed 0.0, "
+            "indicator 1.0); numeric comparison repairs it")
